@@ -33,8 +33,8 @@ def build_cell(e, cfg):
     elif kind == "direct":
         conn = neural.LinearDirect((2,), dt, synapse=syn, delay=delay, batch_size=B)
     elif kind == "conv":
-        H, W, kh, kw, Fn = cfg["geom"]
-        conn = neural.Conv2D(H, W, 1, Fn, dt, (kh, kw), synapse=syn, delay=delay, batch_size=B)
+        H, W, kh, kw, Fn, Cn = (tuple(cfg["geom"]) + (1,))[:6]
+        conn = neural.Conv2D(H, W, Cn, Fn, dt, (kh, kw), synapse=syn, delay=delay, batch_size=B)
     else:
         conn = neural.LinearLateral((2,), dt, synapse=syn, delay=delay, batch_size=B)
     W0 = e.sym(tuple(conn.weight.shape), torch.float32, "W0", lo=-2, hi=2)
@@ -61,14 +61,15 @@ def geometry(cfg, conn):
         return {(i,): [((i,), (i,), (s[i][i] if s else 0))] for i in range(2)}
     if kind in ("dense", "lateral"):
         return {(o, i): [((o,), (i,), (0 if (s is None or (kind == "lateral" and o == i)) else s[o][i]))] for o in range(2) for i in range(2)}
-    H, W, kh, kw, Fn = cfg["geom"]
+    H, W, kh, kw, Fn, Cn = (tuple(cfg["geom"]) + (1,))[:6]
     oh, ow = H - kh + 1, W - kw + 1           # stride 1, no padding, no dilation
     g = {}
     for f in range(Fn):
-        for i in range(kh):
-            for j in range(kw):
-                d = s[f][0][i][j] if s else 0
-                g[(f, 0, i, j)] = [((f, oy, ox), (0, oy + i, ox + j), d) for oy in range(oh) for ox in range(ow)]
+        for c in range(Cn):
+            for i in range(kh):
+                for j in range(kw):
+                    d = s[f][c][i][j] if s else 0
+                    g[(f, c, i, j)] = [((f, oy, ox), (c, oy + i, ox + j), d) for oy in range(oh) for ox in range(ow)]
     return g
 
 
@@ -312,7 +313,8 @@ def checks(tier):
     for trainer in ("stdp", "triplet", "mstdp", "mstdpet"):
         for mode in (("cumulative", "nearest") if (th or trainer == "stdp") else ("cumulative",)):
             for signs in (tuple(SIGNS) if th else (("hebbian", "depressive") if trainer == "stdp" else ("hebbian",))):
-                for geom in (((3, 3, 2, 2, 1), (2, 3, 1, 2, 2), (3, 2, 2, 1, 2)) if th else ((3, 3, 2, 2, 1), (2, 3, 1, 2, 2))):
+                # (H, W, kh, kw, filters[, channels]); the two-channel geometry tells the (c kh kw) layout of the unfolded patches from its permutations
+                for geom in (((3, 3, 2, 2, 1), (2, 3, 1, 2, 2), (3, 2, 2, 1, 2), (2, 3, 1, 2, 1, 2), (2, 2, 2, 1, 1, 2)) if th else ((3, 3, 2, 2, 1), (2, 3, 1, 2, 2), (2, 3, 1, 2, 1, 2))):
                     for dly in ("none", "delayed", "frozen"):
                         if trainer == "mstdpet" and dly == "delayed":
                             continue
@@ -322,8 +324,8 @@ def checks(tier):
                             c = dict(trainer=trainer, trace=mode, signs=signs, cell="conv", geom=geom, B=B, reduction=red, dt=1.3, T=(4 if th else 3),
                                      signal=("-" if trainer in ("stdp", "triplet") else "scalar+"))
                             if dly != "none":
-                                H, W, kh, kw, Fn = geom
-                                steps = [[[[(f + 2 * i + j) % 3 for j in range(kw)] for i in range(kh)]] for f in range(Fn)]
+                                H, W, kh, kw, Fn, Cn = (tuple(geom) + (1,))[:6]
+                                steps = [[[[(f + c + 2 * i + j) % 3 for j in range(kw)] for i in range(kh)] for c in range(Cn)] for f in range(Fn)]
                                 c.update(maxdelay=2 * 1.3, delaysteps=steps, delayed=(dly == "delayed"))
                             conv.append(c)
     return [Check("conv_pair_sums", h_stdp, conv, opts={"max_paths": 5000, "query_timeout_ms": 120000}, timeout_s=1800),
@@ -331,8 +333,8 @@ def checks(tier):
 
 
 BOUNDS = {
-    "quick": {"trainers": ["STDP", "TripletSTDP", "MSTDP", "MSTDPET"], "trace modes": 2, "sign modes": 4, "cells": ["dense 2x2", "direct 2", "lateral 2", "Conv2D 3x3 input / 2x2 kernel / 1 filter and 2x3 input / 1x2 kernel / 2 filters (T=3)"], "T": 4, "batch": 2,
+    "quick": {"trainers": ["STDP", "TripletSTDP", "MSTDP", "MSTDPET"], "trace modes": 2, "sign modes": 4, "cells": ["dense 2x2", "direct 2", "lateral 2", "Conv2D 3x3 input / 2x2 kernel / 1 filter, 2x3 input / 1x2 kernel / 2 filters, and 2 channels x 2x3 input / 1x2 kernel (T=3)"], "T": 4, "batch": 2,
               "delays": "none / per-synapse grid delays {0,1,2} steps with delayed=True / delayed=False", "signal": "scalar +/-, per-sample symbolic tensor (forked on sign)", "dt": 1.3},
     "thorough": {"T": 6, "batch": [1, 2], "reductions": ["sum", "mean"], "dt": [1.0, 1.3], "all cells x all sign modes x all delay modes": True},
 }
-OUTSIDE = ["conv cells with stride/padding/dilation other than the defaults or more than one input channel", "off-grid delays", "time constants other than those used", "post spikes are scripted (any history), not produced by neuron dynamics"]
+OUTSIDE = ["conv cells with stride/padding/dilation other than the defaults or more than two input channels", "off-grid delays", "time constants other than those used", "post spikes are scripted (any history), not produced by neuron dynamics"]
